@@ -439,6 +439,8 @@ class EVPark(Component):
         )
         self.park_interruption_fraction = (
             self.curr_exp_car_interruptions / self.num_cars
+            if self.num_cars > 0
+            else 0
         )
 
         if self.park_interruption_fraction > 0:
